@@ -268,7 +268,7 @@ func c08Stages(c *wk.Case, srcN int64, failAt int64, k int64, expensive bool) *r
 	if srcN == 1000 && r.IntN(4) == 0 {
 		// lazy list built from another stage
 		cur = ref.Method(ref.Static("numbers", ref.Int(srcN)), "skip", ref.Int(0))
-	} else if srcN == 1000 && r.IntN(4) == 0 {
+	} else if srcN <= 1000 && r.IntN(4) == 0 {
 		// a source that is already in memory (literal, evaluated, sorted, appended): nothing may look at
 		// its items while the pipeline is only being built
 		var items []*ref.Node
